@@ -97,6 +97,10 @@ pub enum Path {
     ExtendRefLazy,
     CollectValLazy,
     CollectRefLazy,
+    /// fault (Min/Max only, where re-feeding is idempotent): `extend` from an iterator that
+    /// panics half-way; the panic is caught and the whole piece is then fed again by `add`.
+    /// Whatever was absorbed before the failed call must still be there.
+    ExtendPanicsThenRetry,
 }
 
 pub trait Item: Copy + Debug + PartialEq + Send + Sync + 'static {
@@ -148,6 +152,7 @@ pub trait Est: Clone + Debug + Serialize + DeserializeOwned + Send + 'static {
     fn collect_ref(items: &[Self::Item]) -> Self;
     fn extend_val(&mut self, items: &[Self::Item]);
     fn extend_ref(&mut self, items: &[Self::Item]);
+    fn extend_val_iter(&mut self, it: &mut dyn Iterator<Item = Self::Item>);
     fn collect_val_lazy(items: &[Self::Item]) -> Self;
     fn collect_ref_lazy(items: &[Self::Item]) -> Self;
     fn extend_val_lazy(&mut self, items: &[Self::Item]);
@@ -180,6 +185,21 @@ pub trait Est: Clone + Debug + Serialize + DeserializeOwned + Send + 'static {
             Path::CollectRefLazy if first_piece => *self = Self::collect_ref_lazy(items),
             Path::CollectValLazy => self.extend_val_lazy(items),
             Path::CollectRefLazy => self.extend_ref_lazy(items),
+            Path::ExtendPanicsThenRetry => {
+                if Self::ORDER == 0 && Self::HAS_EXTEND && items.len() >= 2 {
+                    let k = items.len() / 2;
+                    let mut it = items.iter().copied().enumerate().map(|(i, x)| {
+                        if i == k {
+                            panic!("harness: injected iterator panic");
+                        }
+                        x
+                    });
+                    let _ = std::panic::catch_unwind(std::panic::AssertUnwindSafe(|| self.extend_val_iter(&mut it)));
+                }
+                for &x in items {
+                    self.push(x);
+                }
+            }
             Path::DefaultCtor => {
                 if first_piece {
                     *self = Self::fresh_default();
@@ -255,16 +275,32 @@ macro_rules! scalar_ingest {
         fn extend_ref(&mut self, items: &[f64]) {
             Extend::extend(self, items.iter())
         }
+        fn extend_val_iter(&mut self, it: &mut dyn Iterator<Item = f64>) {
+            Extend::extend(self, it)
+        }
         fn collect_val_lazy(items: &[f64]) -> Self {
+            if items.len() % 2 == 0 {
+                // size_hint = (0, None)
+                let mut it = items.iter().copied();
+                return std::iter::from_fn(move || it.next()).collect::<$t>();
+            }
             items.iter().copied().filter(|_| true).collect::<$t>()
         }
         fn collect_ref_lazy(items: &[f64]) -> Self {
             items.iter().filter(|_| true).collect::<$t>()
         }
         fn extend_val_lazy(&mut self, items: &[f64]) {
+            if items.len() % 2 == 0 {
+                let mut it = items.iter().copied();
+                return Extend::extend(self, std::iter::from_fn(move || it.next()));
+            }
             Extend::extend(self, items.iter().copied().filter(|_| true))
         }
         fn extend_ref_lazy(&mut self, items: &[f64]) {
+            if items.len() % 2 == 0 {
+                let mut it = items.iter();
+                return Extend::extend(self, std::iter::from_fn(move || it.next()));
+            }
             Extend::extend(self, items.iter().filter(|_| true))
         }
     };
@@ -551,6 +587,11 @@ impl Est for Max {
             Estimate::add(self, x);
         }
     }
+    fn extend_val_iter(&mut self, it: &mut dyn Iterator<Item = f64>) {
+        for x in it {
+            Estimate::add(self, x);
+        }
+    }
     fn collect_val_lazy(items: &[f64]) -> Self {
         items.iter().copied().filter(|_| true).collect::<Max>()
     }
@@ -583,16 +624,31 @@ macro_rules! pair_ingest {
         fn extend_ref(&mut self, items: &[(f64, f64)]) {
             Extend::extend(self, items.iter())
         }
+        fn extend_val_iter(&mut self, it: &mut dyn Iterator<Item = (f64, f64)>) {
+            Extend::extend(self, it)
+        }
         fn collect_val_lazy(items: &[(f64, f64)]) -> Self {
+            if items.len() % 2 == 0 {
+                let mut it = items.iter().copied();
+                return std::iter::from_fn(move || it.next()).collect::<$t>();
+            }
             items.iter().copied().filter(|_| true).collect::<$t>()
         }
         fn collect_ref_lazy(items: &[(f64, f64)]) -> Self {
             items.iter().filter(|_| true).collect::<$t>()
         }
         fn extend_val_lazy(&mut self, items: &[(f64, f64)]) {
+            if items.len() % 2 == 0 {
+                let mut it = items.iter().copied();
+                return Extend::extend(self, std::iter::from_fn(move || it.next()));
+            }
             Extend::extend(self, items.iter().copied().filter(|_| true))
         }
         fn extend_ref_lazy(&mut self, items: &[(f64, f64)]) {
+            if items.len() % 2 == 0 {
+                let mut it = items.iter();
+                return Extend::extend(self, std::iter::from_fn(move || it.next()));
+            }
             Extend::extend(self, items.iter().filter(|_| true))
         }
     };
